@@ -347,6 +347,61 @@ C01Rows(u) ==
 
 (* (the dummy parameter keeps TLC from pre-evaluating the tables that are  *)
 (* not asked for)                                                         *)
+(* a physical standard / a permutation used for port renumbering *)
+RenPhys(ph, pi) ==
+    LET np == [i \in 1..Len(ph.ports) |-> pi[ph.ports[i]]]
+    IN [sid |-> ph.sid,
+        ports |-> Sorted(np),
+        cells |-> [ab \in {<<pi[x[1]], pi[x[2]]>> : x \in DOMAIN ph.cells} |->
+                     ph.cells[CHOOSE x \in DOMAIN ph.cells :
+                                 <<pi[x[1]], pi[x[2]]>> = ab]]]
+
+PermOf(p, v) ==
+    IF v % 2 = 0 THEN [i \in 1..p |-> (i % p) + 1]             \* rotation
+    ELSE [i \in 1..p |-> IF i = 1 THEN p ELSE IF i = p THEN 1 ELSE i]  \* swap ends
+
+(* Partial isolation coverage: abbreviated matrices everywhere, leakage     *)
+(* observed in isolation for a proper subset of the off-diagonal cells,    *)
+(* chosen so that (row-major) an unobserved cell follows an observed one.  *)
+(* Two ports: port-2 reflects come with the full rows of their column      *)
+(* (cell (1,2) observed, (2,1) not).  Three ports: match pairs on (1,2)    *)
+(* and (1,3) only (cells (2,3), (3,2) never observed).  The instrument     *)
+(* leaks only where CalEq says a cell is observed.  wide = TRUE gives the  *)
+(* same standards with complete matrices.                                 *)
+PartialItems(n) ==
+    LET pairs == PairSeq(n)
+        refl(a, rows) == [j \in 1..3 |->
+                            [ph |-> ReflP(10 * a + j, a, <<"S", "O", "Z">>[j]),
+                             ep |-> "single", fr |-> rows]]
+    IN (IF n = 2 THEN refl(1, FALSE) \o refl(2, TRUE)
+        ELSE Concat([a \in 1..n |-> refl(a, FALSE)]))
+       \o [i \in 1..Len(pairs) |->
+             [ph |-> ThruP(100 + 10 * pairs[i][1] + pairs[i][2], pairs[i][1], pairs[i][2]),
+              ep |-> "through", fr |-> FALSE]]
+       \o <<[ph |-> LineP(212, 1, 2, "P"), ep |-> "line", fr |-> FALSE]>>
+       \o (IF n = 2 THEN <<>>
+           ELSE <<[ph |-> Refl2P(91, 1, 2, "Z", "Z"), ep |-> "double", fr |-> FALSE],
+                  [ph |-> Refl2P(92, 1, 3, "Z", "Z"), ep |-> "double", fr |-> FALSE]>>)
+
+PartialAdds(n, pi, wide) ==
+    LET its == PartialItems(n)
+    IN [i \in 1..Len(its) |->
+          LET ph == RenPhys(its[i].ph, pi)
+              k  == Len(ph.ports)
+          IN AddStep(ph, its[i].ep, [q \in 1..k |-> pi[its[i].ph.ports[q]]], FALSE,
+                     IF wide \/ its[i].fr THEN n ELSE k, IF wide THEN n ELSE k)]
+
+LeakTypes == {"TE10", "UE10", "UE14", "E12"}
+
+C01PartialRows(u) ==
+    {LET adds == TLCEval(PartialAdds(x[2], Iota(x[2]), FALSE))
+     IN [name |-> Name("c01-partial-isolation", x[1], x[2], x[2], 0),
+         steps |-> <<Life(x[1], x[2], x[2], x[2], IF x[2] = 2 THEN "m" ELSE "ab",
+                          "none", 0, adds, <<>>)>>
+                   \o adds
+                   \o <<Op("solve"), Op("addcal"), Apply(1), Op("saveeq")>>] :
+        x \in LeakTypes \X (2..(IF MaxDim < 3 THEN MaxDim ELSE 3))}
+
 (* four-port calibrations in a/b form at high and low reference levels are *)
 (* part of the quick table too                                             *)
 C01Dim4Rows(u) ==
@@ -354,6 +409,7 @@ C01Dim4Rows(u) ==
     ELSE {C01Row(t, 4, 4, v) : t \in {"T8", "U8", "T16"}, v \in {4, 6}}
 
 C01Table(u) == C01Rows(u) \cup BadAllocRows(u) \cup ProtocolRows(u) \cup C01Dim4Rows(u)
+               \cup C01PartialRows(u)
 
 -----------------------------------------------------------------------------
 (* hostile: calls out of order, every refused and every unclassified       *)
@@ -396,18 +452,6 @@ HostileTable(u) ==
 Run(t, r, c, nf, form, rel, k, adds, pi, extra, d) ==
     <<Life(t, r, c, nf, form, rel, k, adds, pi)>> \o adds \o extra
     \o <<Op("solve"), Op("addcal"), Apply(d)>>
-
-RenPhys(ph, pi) ==
-    LET np == [i \in 1..Len(ph.ports) |-> pi[ph.ports[i]]]
-    IN [sid |-> ph.sid,
-        ports |-> Sorted(np),
-        cells |-> [ab \in {<<pi[x[1]], pi[x[2]]>> : x \in DOMAIN ph.cells} |->
-                     ph.cells[CHOOSE x \in DOMAIN ph.cells :
-                                 <<pi[x[1]], pi[x[2]]>> = ab]]]
-
-PermOf(p, v) ==
-    IF v % 2 = 0 THEN [i \in 1..p |-> (i % p) + 1]             \* rotation
-    ELSE [i \in 1..p |-> IF i = 1 THEN p ELSE IF i = p THEN 1 ELSE i]  \* swap ends
 
 C17Rels(t, r, c) ==
     {"entry", "order", "unrelated", "scale"}
@@ -500,6 +544,30 @@ C17NoisySplitRows(u) ==
      IN [name |-> row.name, steps |-> MapLife(row.steps, x[3], "use", 0, 0)] :
         x \in {y \in Types \X {1, 2} \X {2, 3} : DimsOK(y[1], y[2], y[2])}}
 
+(* partial isolation coverage (see PartialItems): the same calibration     *)
+(* with its ports renumbered (the unobserved cell moves in front of the    *)
+(* observed one), and the same standards entered with complete matrices   *)
+(* on the same instrument (which leaks only where the abbreviated life     *)
+(* observes)                                                               *)
+C17PartialRow(t, n, rel) ==
+    LET id   == Iota(n)
+        pi   == PermOf(n, 1)
+        a1   == TLCEval(PartialAdds(n, id, FALSE))
+        a2   == TLCEval(IF rel = "renumber" THEN PartialAdds(n, pi, FALSE)
+                        ELSE PartialAdds(n, id, TRUE))
+        form == IF n = 2 THEN "ab" ELSE "m"
+        l1   == Life(t, n, n, 2, form, "none", 0, a1, <<>>)
+        l2   == IF rel = "renumber" THEN Life(t, n, n, 2, form, rel, 0, a2, pi)
+                ELSE [Life(t, n, n, 2, form, rel, 0, a2, <<>>) EXCEPT !.leak = l1.leak]
+        tail == <<Op("solve"), Op("addcal"), Apply(2)>>
+    IN [name |-> Name("c17-partial-isolation-" \o rel, t, n, n, 0),
+        steps |-> <<l1>> \o a1 \o tail \o <<l2>> \o a2 \o tail
+                  \o <<[op |-> "compare", rel |-> rel]>>]
+
+C17PartialRows(u) ==
+    {C17PartialRow(x[1], x[2], x[3]) :
+        x \in LeakTypes \X (2..(IF MaxDim < 3 THEN MaxDim ELSE 3)) \X {"renumber", "entry"}}
+
 (* four-port calibrations (their recipes hold the sparse multi-port        *)
 (* standards) are part of the quick table for two types with leakage terms *)
 C17SparseRows(u) ==
@@ -544,7 +612,7 @@ C17Table(u) ==
            x \in {y \in Types \X (1..MaxDim) \X (1..MaxDim) :
                      DimsOK(y[1], y[2], y[3]) /\ ApplyAccepts(y[2], y[3])}}
     \cup C17SparseRows(u) \cup C17HashRows(u) \cup C17SharedRows(u) \cup C17NoisyRows(u)
-    \cup C17NoisySplitRows(u)
+    \cup C17NoisySplitRows(u) \cup C17PartialRows(u)
 
 -----------------------------------------------------------------------------
 (* C20: the standard list of a (type, dims) and its sub-sequences          *)
@@ -560,7 +628,7 @@ C20List(t, r, c) ==
             \o [i \in 1..Len(pairs) |->
                   ThruP(100 + 10 * pairs[i][1] + pairs[i][2], pairs[i][1], pairs[i][2])]
             \o <<LineP(212, 1, 2, "P"), ReflP(11, 1, "S")>>
-            \o (IF p >= 3 THEN <<CouplerP(511, "P")>> ELSE <<LineP(213, 1, 2, "P")>>)
+            \o (IF p >= 3 THEN <<CouplerP(511, "P")>> ELSE <<IsoP(500, 1, 2, "P")>>)
 
 RECURSIVE Fact(_)
 Fact(n) == IF n <= 1 THEN 1 ELSE n * Fact(n - 1)
